@@ -596,7 +596,9 @@ fn query_strings() -> Vec<String> {
             pairs.push(format!("{k}={v}"));
         }
     }
-    let mut out = vec![String::new(), "&".into(), "=".into(), "q".into(), "%zz=1".into(), "%3Cb%3E=1".into(), "q=a&<i>=1".into(), "a%26b=1".into()];
+    let mut out = vec![String::new(), "&".into(), "=".into(), "q".into(), "%zz=1".into(), "%3Cb%3E=1".into(), "q=a&<i>=1".into(), "a%26b=1".into(),
+        // separators other than `&` are data
+        "q=a;b".into(), "q=x;sortBy=date".into(), "q=a;c=x&sortBy=date".into(), "q=a%3Bb".into(), "q=a;".into(), ";q=a".into(), "q=a|c=x".into(), "q=a,c=x".into(), "q=a c=x".into()];
     for a in &pairs {
         out.push(a.clone());
         for b in &pairs {
